@@ -85,7 +85,14 @@ def cases(tier, seed):
                     continue
                 for o in OUTS:
                     for dt in ("float64", "float32"):
+                        if iname == "offset" and dt == "float32":
+                            continue     # 16 float32 ulps wide: the nodes cannot be told apart from the limits
                         out.append({"n": n, "interval": iname, "form": form, "out": o, "dtype": dt})
+    for outer in ("unit", "ninf_inf", "0_inf", "1_inf", "inf_0"):
+        for inner in ("unit", "ninf_inf", "0_inf", "ninf_0"):
+            for n in ((5, 16) if tier == "quick" else (2, 5, 16, 40)):
+                for dtn in ("float64", "float32"):
+                    out.append({"kind": "nested", "outer": outer, "inner": inner, "n": n, "dtype": dtn})
     # the history cases cost a fresh interpreter each: spread them evenly so that they do not share one work chunk
     stride = max(1, len(out) // max(1, len(hist)))
     for k, h in enumerate(hist):
@@ -182,10 +189,48 @@ def _run_history(cfg):
             "n": nexec, "states": len(seq), "transitions": len(seq)}
 
 
+def _run_nested(cfg):
+    """re-entrancy: the integrand of one quad call evaluates another quad call (a double integral, a normalisation
+    constant computed inside the integrand).  For a separable integrand g(x) * int h the nested result must equal
+    the product of the two one-dimensional results computed by separate, non-nested calls."""
+    from xitorch.integrate import quad
+    dt = qc.DTYPES[cfg["dtype"]]
+    eps = qc.eps_of(cfg["dtype"])
+    n = cfg["n"]
+    (ol, ou), (il, iu) = qc.INTERVALS[cfg["outer"]], qc.INTERVALS[cfg["inner"]]
+
+    def g(x):
+        x = torch.as_tensor(x, dtype=dt)
+        return torch.exp(-0.7 * x * x) * (1.0 + 0.3 * x)
+
+    def h(y):
+        y = torch.as_tensor(y, dtype=dt)
+        return 1.0 / (1.0 + y * y) ** 2 + 0.2 * torch.exp(-y * y)
+    og = call(quad, g, ol, ou, n=n)
+    oh = call(quad, h, il, iu, n=n)
+    on = call(quad, lambda x: g(x) * quad(h, il, iu, n=n), ol, ou, n=n)
+    viol = []
+    for o, nm in ((og, "outer"), (oh, "inner"), (on, "nested")):
+        if o.exc is not None:
+            viol.append(V("nested:exception:%s" % o.exc_sig, {"call": nm}, call=nm))
+    obs = {}
+    if not viol:
+        ref = float(og.value) * float(oh.value)
+        got = float(on.value)
+        tol = 64 * n * eps * max(abs(ref), 1e-300)
+        obs = {"rel": rnd(abs(got - ref) / max(abs(ref), 1e-300), 3)}
+        if not abs(got - ref) <= tol:
+            viol.append(V("nested:result-differs-from-product-of-separate-calls",
+                          {"nested": got, "product": ref, "tol": tol, "outer": cfg["outer"], "inner": cfg["inner"]}))
+    return {"viol": viol, "obs": obs, "status": "violation" if viol else "ok", "n": 3}
+
+
 def run_case(cfg):
     from xitorch.integrate import quad
     if cfg.get("kind") == "history":
         return _run_history(cfg)
+    if cfg.get("kind") == "nested":
+        return _run_nested(cfg)
     n, iname, form, okind, dtn = cfg["n"], cfg["interval"], cfg["form"], cfg["out"], cfg["dtype"]
     dt = qc.DTYPES[dtn]
     eps = qc.eps_of(dtn)
